@@ -2,6 +2,7 @@ use bytes::Bytes;
 use serde::{Deserialize, Serialize};
 use std::{
     fmt,
+    future::{self, Future},
     io::{self, ErrorKind},
     mem,
     pin::Pin,
@@ -107,6 +108,12 @@ async fn send_data(mut bin_sender: bin::Sender, data: Bytes) -> Result<(bin::Sen
     Ok((bin_sender, len))
 }
 
+/// A future that reports the specified error every time it is polled.
+fn failed<T>(err: &io::Error) -> impl Future<Output = Result<T, io::Error>> + Send + 'static {
+    let (kind, msg) = (err.kind(), err.to_string());
+    future::poll_fn(move |_| Poll::Ready(Err(io::Error::new(kind, msg.clone()))))
+}
+
 async fn connect_sender(mut bin_sender: bin::Sender) -> Result<(bin::Sender, usize), io::Error> {
     let chmux_sender =
         bin_sender.get().await.map_err(|e| io::Error::new(ErrorKind::ConnectionRefused, e.to_string()))?;
@@ -118,16 +125,32 @@ impl<Codec> Sender<Codec> {
     /// Polls to complete any pending connect or send operations.
     fn poll_complete(&mut self, cx: &mut Context<'_>) -> Poll<io::Result<()>> {
         if let Some(future) = &mut self.connecting {
-            let (bin_sender, chunk_size) = ready!(future.poll(cx))?;
-            self.chunk_size = Some(chunk_size);
-            *self.bin_sender.lock().unwrap() = Some(bin_sender);
-            self.connecting = None;
+            match ready!(future.poll(cx)) {
+                Ok((bin_sender, chunk_size)) => {
+                    self.chunk_size = Some(chunk_size);
+                    *self.bin_sender.lock().unwrap() = Some(bin_sender);
+                    self.connecting = None;
+                }
+                Err(err) => {
+                    // The finished future must not be polled again; keep reporting the failure.
+                    future.set(failed(&err));
+                    return Poll::Ready(Err(err));
+                }
+            }
         }
 
         if let Some(future) = &mut self.sending {
-            let (bin_sender, _bytes_sent) = ready!(future.poll(cx))?;
-            *self.bin_sender.lock().unwrap() = Some(bin_sender);
-            self.sending = None;
+            match ready!(future.poll(cx)) {
+                Ok((bin_sender, _bytes_sent)) => {
+                    *self.bin_sender.lock().unwrap() = Some(bin_sender);
+                    self.sending = None;
+                }
+                Err(err) => {
+                    // The finished future must not be polled again; keep reporting the failure.
+                    future.set(failed(&err));
+                    return Poll::Ready(Err(err));
+                }
+            }
         }
 
         Poll::Ready(Ok(()))
